@@ -22,7 +22,10 @@
      Mono      earliest only moves forward                          (action property)
      Stable    answers for a block never change while it stays in the window (action property)
      DelOk     an epoch is dropped only when older than the blocks-to-save window that was in
-               force at that epoch: e + blocksToSave@e < height      (action property) *)
+               force at that epoch: e + blocksToSave@e < height      (action property)
+   and on the queries about the current block: CurNextOk (GetCurrentNextEpoch > height and = the
+   next epoch start), Announced (epoch-start processing runs at b iff b was the announced next epoch
+   at b-1), CurStartOk (IsEpochStart, GetEpochStart, GetPreviousEpochStartForBlock). *)
 EXTENDS Integers, Sequences, FiniteSets, TLC, Json
 CONSTANTS EBs, ETSs,     \* values the parameters may take
           MaxHeight, MaxChanges,
@@ -58,7 +61,13 @@ PrevEpochStart(P, b) ==
 BlocksToSave(P, b) == LET t == Fix(P.ft, P.ets, b) n == Fix(P.fe, P.eb, b) IN [v |-> t.val * n.val, err |-> t.err \/ n.err]
 IsEpochStart(P, b) == LET q == BlockInEpoch(P, b) IN ~q.err /\ q.v = 0
 
+\* GetCurrentNextEpoch at height hh with EpochDetails (st, ea): in the genesis epoch (earliest = start)
+\* the *raw* EpochBlocks is added to the epoch start, otherwise GetNextEpoch(height) (panic on error)
+CurrentNextEpoch(P, st, ea, hh) ==
+  IF ea = st THEN [v |-> st + P.eb, err |-> FALSE] ELSE NextEpoch(P, hh)
+
 Env == [fe |-> fixEB, ft |-> fixETS, eb |-> eb, ets |-> ets]
+CurNext == CurrentNextEpoch(Env, start, earliest, h)
 
 \* PushFixatedParams for one key
 RECURSIVE PushGo(_, _, _, _)
@@ -177,6 +186,21 @@ StableWW(W, W2) == \A b \in Blocks(W) \cap Blocks(W2) :
                      /\ W[At(W, b)].nx = W2[At(W2, b)].nx
                      /\ W[At(W, b)].bts = W2[At(W2, b)].bts
 DelOkWW(W, newDel, hNew) == \A e \in newDel : e \in Blocks(W) => (~W[At(W, e)].btserr /\ e + W[At(W, e)].bts < hNew)
+
+\* ---- queries about the current block ----
+\* Outside the genesis epoch the announced next epoch (GetCurrentNextEpoch) is strictly later than the
+\* height and is exactly where the next epoch starts.  (Quirk Q2, modelled and excluded: in the genesis
+\* epoch the code adds the raw, not yet fixated EpochBlocks, so a change proposed during the very first
+\* epoch is announced too early / too late.)
+NotGenesis == earliest # start
+CurNextOk == (~panic /\ NotGenesis) => (~CurNext.err /\ CurNext.v > h /\ CurNext.v = NextEpoch(Env, h).v)
+\* retrospectively: epoch-start processing runs at a block iff that block was announced one block earlier
+Announced == [][(h' = h + 1 /\ ~panic' /\ NotGenesis) => ((start' = h') <=> (CurNext.v = h'))]_vars
+\* IsEpochStart / GetEpochStart / GetPreviousEpochStartForBlock agree with the grid
+CurStartOk == ~panic => /\ IsEpochStart(Env, h) <=> (start = h)
+                        /\ EpochStartOf(Env, h).v = start
+                        /\ LET p == PrevEpochStart(Env, h) IN
+                           (~p.err /\ start - 1 >= earliest) => (p.v < start /\ p.v = EpochStartOf(Env, start - 1).v /\ p.v \in hashes)
 
 Total     == ~panic => TotalW(SpecWin)
 StartsRan == ~panic => StartsRanW(SpecWin) /\ start \in hashes /\ (h \in hashes => start = h)
